@@ -782,6 +782,10 @@ func describe(c Case, res *kit.Result) {
 	if !c.O.GFM && listThenTable(c) {
 		res.Label("simple-table-after-item")
 	}
+	hostile := hostilePlaces(c)
+	for _, h := range hostile {
+		res.Label("hostile:" + h)
+	}
 	if c.Via == "" {
 		res.Label("via:own-struct")
 	} else {
@@ -832,6 +836,12 @@ func describe(c Case, res *kit.Result) {
 		}
 		if len(exact) == 0 {
 			res.Label("unmasked") // no finding of any kind applies: E1-E5 outright
+		}
+		for _, h := range hostile {
+			res.Label("fully-judged:hostile:" + h)
+			if len(exact) == 0 && h == "any" {
+				res.Label("unmasked:hostile")
+			}
 		}
 	}
 	trig := append(append([]string{}, class...), exact...)
@@ -895,23 +905,29 @@ func tableBetweenParagraphs(c Case) bool {
 func TestC20(t *testing.T) {
 	kit.Main(t, kit.Spec[Case]{
 		ID: "C20", Level: "exploration",
-		Rule: "document of 1-10 (thorough 1-16) blocks drawn from headings 1-9, paragraphs of 1-5 runs (bold/italic/strike/code-font combinations), bullet and numbered list items, Quote and CodeBlock paragraphs, 1-5 x 1-5 tables (bold or plain first row, empty cells) and empty paragraphs, in any interleaving (a list item directly before a table in a quarter of the cases), under every combination of export options (GFM/simple tables, setext, three bullet markers, two emphasis markers, wrapping at 1..80, metadata); the options reach the exporter as the caller's own struct (~78 %) or through DefaultExportOptions(), NewExporter(nil)+nil options, HighQualityExportOptions(); in half of the cases 1-2 other exports (HighQualityExportOptions, a customised copy-by-pointer of what DefaultExportOptions returned, another struct, nil options) run between the judged exports; modes clean (~45 %: safe alphabet, single formats), benign (~38 %: plus lists, code blocks, empty paragraphs, plain table headers, multi-format and code+emphasis runs, Heading7-9, ASCII and Unicode blanks at the edges of formatted runs and headings) and wild (~17 %: Markdown syntax in text, touching formatted runs, intraword underscore, pipes in cells, wrapped formatted text); non-trivial = a table between two text blocks, >= 2 formatted runs and >= 3 block kinds; distinct = distinct sequence of (block kind, heading level, run format masks, table size) + options + finding classes the case is in",
+		Rule: "document of 1-10 (thorough 1-16) blocks drawn from headings 1-9, paragraphs of 1-5 runs (bold/italic/strike/code-font combinations), bullet and numbered list items, Quote and CodeBlock paragraphs, 1-5 x 1-5 tables (bold or plain first row, empty cells) and empty paragraphs, in any interleaving (a list item directly before a table in a quarter of the cases), under every combination of export options (GFM/simple tables, setext, three bullet markers, two emphasis markers, wrapping at 1..80, metadata); the options reach the exporter as the caller's own struct (~78 %) or through DefaultExportOptions(), NewExporter(nil)+nil options, HighQualityExportOptions(); in half of the cases 1-2 other exports (HighQualityExportOptions, a customised copy-by-pointer of what DefaultExportOptions returned, another struct, nil options) run between the judged exports; modes clean (~31 %: safe alphabet, single formats), benign (~21 %: plus lists, code blocks, empty paragraphs, plain table headers, multi-format and code+emphasis runs, Heading7-9, ASCII and Unicode blanks at the edges of formatted runs and headings, formatted runs touching each other or a plain neighbour, wrapped formatted text), hostile (~40 %: the benign shapes with text from 25 classes of Markdown syntax - emphasis/tilde/backtick/backslash runs, brackets and links, angle brackets and HTML, entities, dollar, pipes, '!' , leading '#' '-' '+' '*' '=' '>' ':' and ordered markers, table-like and fence-like lines, task boxes, autolinks with and without syntax characters, punctuation at word edges - on their own, glued before/after/inside a word, in headings, items, quotes, cells (pipes more often), plain, formatted and code-font runs (backtick strings), CodeBlock paragraphs (fence-like lines, backtick runs)) and wild (~8 %: simple tables or metadata, half of them with hostile text); non-trivial = a table between two text blocks, >= 2 formatted runs and >= 3 block kinds; distinct = distinct sequence of (block kind, heading level, run format masks, table size) + options + finding classes the case is in",
 		Gen:  genCase, Run: run, Findings: findings, Fixed: fixedCases,
 		Assumptions: []string{
 			"goldmark v1.7.8 with extension.GFM is the reference reading of the exported Markdown (CommonMark 0.31 + GFM tables/strikethrough/autolinks); backslash escapes and entities are resolved as a renderer would, autolink labels count as text",
 			"a leading '---' metadata block is removed before the reference parse when IncludeMetadata is set (front matter is outside CommonMark)",
 			"block text is compared after collapsing whitespace runs; paragraphs without visible text are not expected in the Markdown; heading levels 7-9 may come out at any level; ordered vs bullet marker of a list item is not judged",
 			"the re-imported document is observed through Body.Elements (paragraph style / numbering properties / tables), default ConvertOptions",
-			"exact masks: for the findings with one predictable effect ('• ' paragraphs for items, simple tables read as paragraph text, extra blank line in re-exported fences, blank lines of empty paragraphs, bold first table row, flattened nested emphasis, Heading7/9 -> italic Heading6, front matter read back as a heading) the failing clause is re-judged against the body after exactly that effect and waived only if it then holds; label fully-judged = no clause of E1-E5 is waived for the case's input class (unmasked = not even an exact mask applies)",
+			"exact masks: for the findings with one predictable effect ('• ' paragraphs for items, simple tables read as paragraph text, blank lines of empty paragraphs, bold first table row, Heading7/9 -> italic Heading6, front matter read back as a heading) the failing clause is re-judged against the body after exactly that effect and waived only if it then holds; label fully-judged = no clause of E1-E5 is waived for the case's input class (unmasked = not even an exact mask applies)",
+			"text containing Markdown syntax is judged like any other text (E1-E5 exact): the reference reading resolves backslash escapes and character references, so any correct way of escaping passes; class masks remain only for delimiter placement (KF-C20-delimiter-context: flanking, fused delimiter runs, '~~' after a tilde, delimiters inside an autolink word - decided by a model of the documented run merging, validated by exhaustive enumeration) and for line breaks inside code spans (KF-C20-wrap-code-span)",
 			"C20.E2r (letters and digits of the raw Markdown = letters and digits of the body text, in order) is judged on every case without any mask",
 			"C20.E6 (stability): the document exported again with the same requested options, obtained the same way, after the other exports of the case's history, is byte-identical to the first export; no mask. For options taken from the library's constructors the requested values are the documented ones (defaults; HighQuality = defaults + metadata)",
-			"a simple (non-GFM) table is judged against the reference reading of exactly the lines the open finding describes, standing as a block of their own: absorbed into a neighbour, missing rows or a wrong position stay violations",
+			"a simple (non-GFM) table is judged against the reference reading of exactly the lines the open finding describes (cell texts written with a backslash before every ASCII punctuation character, which reads the same as any other correct escaping), standing as a block of their own: absorbed into a neighbour, missing rows or a wrong position stay violations; its fixpoint clause compares the two exports without backslash escapes, '*', '_' and line breaks",
 		},
 		MustSee: map[string]float64{"fully-judged": 0.8, "unmasked": 0.38, "fully-judged:table-between-paragraphs": 0.12, "fully-judged:formatted-runs>=2": 0.25,
-			"fully-judged:kind:li": 0.1, "fully-judged:kind:code": 0.04, "fully-judged:kind:q": 0.2, "fully-judged:kind:empty": 0.015,
+			"fully-judged:kind:li": 0.1, "fully-judged:kind:code": 0.04, "fully-judged:kind:q": 0.15, "fully-judged:kind:empty": 0.012,
 			"table-between-paragraphs": 0.15, "formatted-runs>=2": 0.3, "opt:setext": 0.3, "opt:wrap": 0.2,
 			"opt:simple-tables": 0.06, "opt:metadata": 0.008, "kind:table": 0.4, "run:multi-format": 0.02,
-			"class-mask:KF-C20-no-escape": 0.02, "class-mask:KF-C20-delimiter-context": 0.01,
+			"class-mask:KF-C20-delimiter-context": 0.01, "class-mask:KF-C20-wrap-code-span": 0.002,
+			"hostile:any": 0.3, "fully-judged:hostile:any": 0.27, "unmasked:hostile": 0.07,
+			"fully-judged:hostile:in:cell": 0.09, "fully-judged:hostile:in:h": 0.08, "fully-judged:hostile:in:li": 0.07, "fully-judged:hostile:in:q": 0.015,
+			"fully-judged:hostile:in:plain-run": 0.09, "fully-judged:hostile:in:formatted-run": 0.06, "fully-judged:hostile:in:code-run": 0.025,
+			"fully-judged:hostile:in:code-block": 0.1, "fully-judged:hostile:fence-in-code-block": 0.04, "fully-judged:hostile:backtick-in-code-run": 0.01,
+			"fully-judged:hostile:pipe-in-cell": 0.07, "fully-judged:hostile:run-edge": 0.045, "hostile:leading-marker:h": 0.012, "hostile:leading-marker:li": 0.012, "hostile:leading-marker:p": 0.012,
 			"edge-blank:unicode": 0.02, "hist:any": 0.3, "hist:mutdefault": 0.15, "hist:hq": 0.08, "via:default": 0.04, "via:nilexp": 0.03, "via:hq": 0.03, "simple-table-after-item": 0.01},
 	})
 }
